@@ -1,8 +1,12 @@
 import TRV.Spec.Alloc
+import TRV.Spec.Genuine
+import TRV.Proofs.Sound
+import TRV.Proofs.Drivers
+import TRV.Proofs.Engine
 /-! Helper lemmas for C11, part 1: the identifier allocators (16/32-bit wrap-around arithmetic via
     `toNat` + `omega`), sequences by induction, concurrent schedules by an invariant. -/
 namespace TRV.Proofs
-open TRV TRV.Alloc TRV.Spec
+open TRV TRV.Alloc TRV.Spec TRV.Drv
 
 /-! ## One call -/
 
@@ -50,6 +54,17 @@ theorem allocSeq_fold (reqs : List (BitVec 8)) : ∀ (acc : List Block) (c : Bit
 /-- the fold and the structural recursion list the same blocks -/
 theorem allocSeq_blocks (c : BitVec 32) (reqs : List (BitVec 8)) : (allocSeq c reqs).1 = blocks c reqs := by
   simp [allocSeq, allocSeq_fold]
+
+theorem allocSeq_ctr_fold (reqs : List (BitVec 8)) : ∀ (acc : List Block) (c : BitVec 32),
+    (reqs.foldl allocStep (acc, c)).2 = reqs.foldl (fun c n => (packetID c n).2) c := by
+  induction reqs with
+  | nil => intro acc c; rfl
+  | cons n rest ih => intro acc c; simp only [List.foldl_cons, allocStep]; rw [ih]
+
+/-- the counter after a sequence, without the list of blocks -/
+theorem allocSeq_ctr (c : BitVec 32) (reqs : List (BitVec 8)) :
+    (allocSeq c reqs).2 = reqs.foldl (fun c n => (packetID c n).2) c := by
+  simp [allocSeq, allocSeq_ctr_fold]
 
 theorem total_cons (n : BitVec 8) (rest : List (BitVec 8)) : total (n :: rest) = n.toNat + total rest := by
   simp [total]
@@ -102,6 +117,18 @@ theorem echoSeq_fold (m : Nat) : ∀ (acc : List (BitVec 16)) (c : BitVec 32),
 
 theorem echoSeq_ids (c : BitVec 32) (m : Nat) : (echoSeq c m).1 = echoIds c m := by
   simp [echoSeq, echoSeq_fold]
+
+theorem echoSeq_ctr_fold (m : Nat) : ∀ (acc : List (BitVec 16)) (c : BitVec 32),
+    ((List.replicate m ()).foldl echoStep (acc, c)).2 = c + BitVec.ofNat 32 m := by
+  induction m with
+  | zero => intro acc c; simp
+  | succ m ih =>
+    intro acc c
+    simp only [List.replicate_succ, List.foldl_cons, echoStep]
+    rw [ih]; simp only [echoID]; bv_omega
+
+theorem echoSeq_ctr (c : BitVec 32) (m : Nat) : (echoSeq c m).2 = c + BitVec.ofNat 32 m := by
+  simp [echoSeq, echoSeq_ctr_fold]
 
 theorem echoID_toNat (c : BitVec 32) : (echoID c).1.toNat = (c.toNat + 1) % 4294967296 % 65536 := by
   simp [echoID, BitVec.toNat_add]
@@ -227,5 +254,531 @@ theorem seqRun_blocks (req : Nat → BitVec 8) (c : BitVec 32) (order : List Nat
 
 theorem disjoint_symm {a b : Block} (h : Disjoint a b) : Disjoint b a :=
   fun x hx hx' => h x hx' hx
+
+
+/-! # Part 2: isolation on the raw-offset genuineness predicates
+
+Inversion lemmas (`*_inv`) extract from `genuineX … = true` the raw reads and the identifying
+equalities; two runs reading the same bytes then agree on every identifying field, which contradicts
+`FlowsDistinct…`. -/
+
+theorem quote4_type {p : Bytes} {l4 : Nat} {q : Quote4} (h : quote4 p l4 = some q) :
+    u8 p l4 = some q.icmpType := by
+  unfold quote4 at h
+  split at h
+  · rename_i ty co c0 id s d h1 _ _ _ _ _
+    simp only [Option.some.injEq] at h
+    subst h; exact h1
+  · simp at h
+
+theorem icmp4TE_inv {c : IcmpCfg} {s : List Sent} {t : Nat} {a p : Bytes}
+    (h : genuineIcmp4TE c s t a p = true) :
+    ∃ v q, view4 p = some v ∧ quote4 p v.l4 = some q ∧ q.icmpType = 11 ∧ q.qDst = c.target ∧
+      u16 p (q.qL4 + 4) = some c.echoId := by
+  unfold genuineIcmp4TE at h
+  split at h; · simp at h
+  rename_i v hv
+  split at h; · simp at h
+  rename_i q hq
+  split at h
+  · rename_i ety eid eseq h1 h2 h3
+    simp only [Bool.and_eq_true, decide_eq_true_eq, Bool.or_eq_true] at h
+    obtain ⟨⟨⟨⟨⟨⟨⟨⟨⟨⟨⟨_, _⟩, _⟩, h11⟩, _⟩, hqd⟩, _⟩, hid⟩, _⟩, _⟩, _⟩, _⟩ := h
+    exact ⟨v, q, hv, hq, h11, hqd, by rw [h2, hid]⟩
+  · simp at h
+
+theorem icmp4Echo_inv {c : IcmpCfg} {s : List Sent} {t : Nat} {a p : Bytes}
+    (h : genuineIcmp4Echo c s t a p = true) :
+    ∃ v, view4 p = some v ∧ u8 p v.l4 = some 0 ∧ u16 p (v.l4 + 4) = some c.echoId ∧ v.outerSrc = c.target := by
+  unfold genuineIcmp4Echo at h
+  split at h; · simp at h
+  rename_i v hv
+  split at h
+  · rename_i ty id seq h1 h2 h3
+    simp only [Bool.and_eq_true, decide_eq_true_eq] at h
+    obtain ⟨⟨⟨⟨⟨⟨⟨⟨⟨hs, ha⟩, _⟩, _⟩, hty⟩, hid⟩, _⟩, _⟩, _⟩, _⟩ := h
+    exact ⟨v, hv, by rw [h1, hty], by rw [h2, hid], by rw [hs, ha]⟩
+  · simp at h
+
+theorem isolation_icmp4 {A B : IcmpCfg} {sA sB : List Sent} {t t' : Nat} {a a' : Bytes} {d d' : Bool} {p : Bytes}
+    (hd : FlowsDistinctIcmp A B) (hA : genuineIcmp4 A sA t a d p = true) :
+    genuineIcmp4 B sB t' a' d' p = false := by
+  cases hB : genuineIcmp4 B sB t' a' d' p with
+  | false => rfl
+  | true =>
+    exfalso
+    unfold genuineIcmp4 at hA hB
+    cases d <;> cases d' <;> simp only [Bool.false_eq_true, if_false, if_true] at hA hB
+    · obtain ⟨v, q, hv, hq, _, hqd, hid⟩ := icmp4TE_inv hA
+      obtain ⟨v', q', hv', hq', _, hqd', hid'⟩ := icmp4TE_inv hB
+      rw [hv] at hv'; cases hv'
+      rw [hq] at hq'; cases hq'
+      rw [hid] at hid'
+      rcases hd with hd | hd
+      · exact hd (by simpa using hid')
+      · exact hd (hqd.symm.trans hqd')
+    · obtain ⟨v, q, hv, hq, h11, _, _⟩ := icmp4TE_inv hA
+      obtain ⟨v', hv', h0, _, _⟩ := icmp4Echo_inv hB
+      rw [hv] at hv'; cases hv'
+      rw [quote4_type hq, h11] at h0; simp at h0
+    · obtain ⟨v, q, hv, hq, h11, _, _⟩ := icmp4TE_inv hB
+      obtain ⟨v', hv', h0, _, _⟩ := icmp4Echo_inv hA
+      rw [hv] at hv'; cases hv'
+      rw [quote4_type hq, h11] at h0; simp at h0
+    · obtain ⟨v, hv, _, hid, hs⟩ := icmp4Echo_inv hA
+      obtain ⟨v', hv', _, hid', hs'⟩ := icmp4Echo_inv hB
+      rw [hv] at hv'; cases hv'
+      rw [hid] at hid'
+      rcases hd with hd | hd
+      · exact hd (by simpa using hid')
+      · exact hd (hs.symm.trans hs')
+
+theorem udp4_inv {c : UdpCfg} {s : List Sent} {t : Nat} {a : Bytes} {d : Bool} {p : Bytes}
+    (h : genuineUdp4 c s t a d p = true) :
+    ∃ v q sp dp, view4 p = some v ∧ quote4 p v.l4 = some q ∧ portsAt p q.qL4 = some (sp, dp) ∧
+      q.qDst = c.target ∧ dp = c.tport ∧ (c.loosen = true ∨ (q.qSrc = c.localA ∧ sp = c.lport)) ∧
+      ∃ x ∈ s, x.ttl = t ∧ x.id = q.qId := by
+  unfold genuineUdp4 at h
+  split at h; · simp at h
+  rename_i v hv
+  split at h; · simp at h
+  rename_i q hq
+  split at h; · simp at h
+  rename_i sp dp hp
+  simp only [Bool.and_eq_true, decide_eq_true_eq, Bool.or_eq_true, List.any_eq_true, and_assoc] at h
+  obtain ⟨_, _, _, _, hqd, hdp, hl, hx, _, _⟩ := h
+  exact ⟨v, q, sp, dp, hv, hq, hp, hqd, hdp, hl, hx⟩
+
+theorem tcpQuoted_inv {c : TcpCfg} {s : List Sent} {t : Nat} {a p : Bytes}
+    (h : genuineTcpQuoted c s t a p = true) :
+    ∃ v q sp dp sq, view4 p = some v ∧ quote4 p v.l4 = some q ∧ portsAt p q.qL4 = some (sp, dp) ∧
+      u32 p (q.qL4 + 4) = some sq ∧ v.outerProto = 1 ∧
+      q.qDst = c.target ∧ dp = c.tport ∧ (c.loosen = true ∨ (q.qSrc = c.localA ∧ sp = c.lport)) ∧
+      ∃ x ∈ s, x.ttl = t ∧ x.id = q.qId ∧ x.seq = sq := by
+  unfold genuineTcpQuoted at h
+  split at h; · simp at h
+  rename_i v hv
+  split at h; · simp at h
+  rename_i q hq
+  split at h
+  · rename_i sp dp sq hp hs
+    simp only [Bool.and_eq_true, decide_eq_true_eq, Bool.or_eq_true, List.any_eq_true, and_assoc] at h
+    obtain ⟨_, hpr, _, _, _, hqd, hdp, hl, hx⟩ := h
+    exact ⟨v, q, sp, dp, sq, hv, hq, hp, hs, hpr, hqd, hdp, hl, hx⟩
+  · simp at h
+
+theorem tcpDirect_inv {c : TcpCfg} {s : List Sent} {t : Nat} {a p : Bytes}
+    (h : genuineTcpDirect c s t a p = true) :
+    ∃ v sp dp, view4 p = some v ∧ portsAt p v.l4 = some (sp, dp) ∧ v.outerProto = 6 ∧
+      v.outerSrc = c.target ∧ v.outerDst = c.localA ∧ sp = c.tport ∧ dp = c.lport := by
+  unfold genuineTcpDirect at h
+  split at h; · simp at h
+  rename_i v hv
+  split at h
+  · rename_i sp dp ack fl last hp _ _ _
+    simp only [Bool.and_eq_true, decide_eq_true_eq, Bool.or_eq_true, and_assoc] at h
+    obtain ⟨hs, ha, hdst, hpr, _, hsp, hdp, _⟩ := h
+    exact ⟨v, sp, dp, hv, hp, hpr, by rw [hs, ha], hdst, hsp, hdp⟩
+  · simp at h
+
+theorem sackQuoted_inv {c : SackCfg} {s : List Sent} {t : Nat} {a : Bytes} {d : Bool} {p : Bytes}
+    (h : genuineSackQuoted c s t a d p = true) :
+    ∃ v q sp dp sq, view4 p = some v ∧ quote4 p v.l4 = some q ∧ portsAt p q.qL4 = some (sp, dp) ∧
+      u32 p (q.qL4 + 4) = some sq ∧ v.outerProto = 1 ∧
+      q.qDst = c.target ∧ dp = c.tport ∧ (c.loosen = true ∨ (q.qSrc = c.localA ∧ sp = c.lport)) ∧
+      (sq + 4294967296 - c.isn % 4294967296) % 4294967296 = t ∧ c.min ≤ t ∧ t ≤ c.max := by
+  unfold genuineSackQuoted at h
+  split at h; · simp at h
+  rename_i v hv
+  split at h; · simp at h
+  rename_i q hq
+  split at h
+  · rename_i sp dp sq hp hs
+    simp only [Bool.and_eq_true, decide_eq_true_eq, Bool.or_eq_true, and_assoc] at h
+    obtain ⟨_, hpr, _, _, _, hqd, hdp, hl, hrel, _, hmin, hmax, _⟩ := h
+    exact ⟨v, q, sp, dp, sq, hv, hq, hp, hs, hpr, hqd, hdp, hl, hrel, hmin, hmax⟩
+  · simp at h
+
+theorem sackDirect_inv {c : SackCfg} {s : List Sent} {t : Nat} {a p : Bytes}
+    (h : genuineSackDirect c s t a p = true) :
+    ∃ v sp dp, view4 p = some v ∧ portsAt p v.l4 = some (sp, dp) ∧ v.outerProto = 6 ∧
+      v.outerSrc = c.target ∧ v.outerDst = c.localA ∧ sp = c.tport ∧ dp = c.lport := by
+  unfold genuineSackDirect at h
+  split at h; · simp at h
+  rename_i v hv
+  split at h
+  · rename_i sp dp b12 fl hp _ _
+    simp only at h
+    split at h; · simp at h
+    split at h; · simp at h
+    simp only [Bool.and_eq_true, decide_eq_true_eq, and_assoc] at h
+    obtain ⟨hs, ha, hdst, hpr, _, hsp, hdp, _⟩ := h
+    exact ⟨v, sp, dp, hv, hp, hpr, by rw [hs, ha], hdst, hsp, hdp⟩
+  · simp at h
+
+
+theorem seqWindowsDisjointB_iff (a b : SackCfg) : seqWindowsDisjointB a b = true ↔ SeqWindowsDisjoint a b := by
+  simp only [seqWindowsDisjointB, SeqWindowsDisjoint, List.all_eq_true, List.mem_range'_1, decide_eq_true_eq]
+  constructor
+  · intro h t t' h1 h2 h3 h4
+    exact h t ⟨h1, by omega⟩ t' ⟨h3, by omega⟩
+  · intro h t ht t' ht'
+    exact h t t' ht.1 (by omega) ht'.1 (by omega)
+
+theorem flowsDistinctSackB_iff (a b : SackCfg) : flowsDistinctSackB a b = true ↔ FlowsDistinctSack a b := by
+  simp only [flowsDistinctSackB, FlowsDistinctSack, Bool.or_eq_true, Bool.and_eq_true, decide_eq_true_eq,
+    beq_iff_eq, seqWindowsDisjointB_iff]
+
+theorem some_pair_inj {α β : Type} {a a' : α} {b b' : β} (h : some (a, b) = some (a', b')) : a = a' ∧ b = b' := by
+  cases h; exact ⟨rfl, rfl⟩
+
+theorem strict_of_not_loosen {l : Bool} {P : Prop} (hl : l = false) (h : l = true ∨ P) : P := by
+  rcases h with h | h
+  · rw [hl] at h; cases h
+  · exact h
+
+theorem isolation_udp4 {A B : UdpCfg} {sA sB : List Sent} {t t' : Nat} {a a' : Bytes} {d d' : Bool} {p : Bytes}
+    (hd : FlowsDistinctUdp A B) (hA : genuineUdp4 A sA t a d p = true) :
+    genuineUdp4 B sB t' a' d' p = false := by
+  cases hB : genuineUdp4 B sB t' a' d' p with
+  | false => rfl
+  | true =>
+    exfalso
+    obtain ⟨v, q, sp, dp, hv, hq, hp, hqd, hdp, hl, _⟩ := udp4_inv hA
+    obtain ⟨v', q', sp', dp', hv', hq', hp', hqd', hdp', hl', _⟩ := udp4_inv hB
+    rw [hv] at hv'; cases hv'
+    rw [hq] at hq'; cases hq'
+    rw [hp] at hp'
+    obtain ⟨rfl, rfl⟩ := some_pair_inj hp'
+    rcases hd with (hd | hd) | ⟨la, lb, hd | hd⟩
+    · exact hd (hqd.symm.trans hqd')
+    · exact hd (hdp.symm.trans hdp')
+    · exact hd ((strict_of_not_loosen la hl).1.symm.trans (strict_of_not_loosen lb hl').1)
+    · exact hd ((strict_of_not_loosen la hl).2.symm.trans (strict_of_not_loosen lb hl').2)
+
+theorem isolation_tcp {A B : TcpCfg} {sA sB : List Sent} {t t' : Nat} {a a' : Bytes} {d d' : Bool} {p : Bytes}
+    (hd : FlowsDistinctTcp A B sA sB) (hA : genuineTcp A sA t a d p = true) :
+    genuineTcp B sB t' a' d' p = false := by
+  cases hB : genuineTcp B sB t' a' d' p with
+  | false => rfl
+  | true =>
+    exfalso
+    unfold genuineTcp at hA hB
+    cases d <;> cases d' <;> simp only [Bool.false_eq_true, if_false, if_true] at hA hB
+    · -- both quoted
+      obtain ⟨v, q, sp, dp, sq, hv, hq, hp, hs, _, hqd, hdp, hl, x, hx, _, hxi, hxs⟩ := tcpQuoted_inv hA
+      obtain ⟨v', q', sp', dp', sq', hv', hq', hp', hs', _, hqd', hdp', hl', y, hy, _, hyi, hys⟩ := tcpQuoted_inv hB
+      rw [hv] at hv'; cases hv'
+      rw [hq] at hq'; cases hq'
+      rw [hp] at hp'
+      obtain ⟨rfl, rfl⟩ := some_pair_inj hp'
+      rw [hs] at hs'; cases hs'
+      rcases hd with (hd | hd) | ⟨hld, ⟨la, lb⟩ | hids⟩
+      · exact hd (hqd.symm.trans hqd')
+      · exact hd (hdp.symm.trans hdp')
+      · rcases hld with hd | hd
+        · exact hd ((strict_of_not_loosen la hl).1.symm.trans (strict_of_not_loosen lb hl').1)
+        · exact hd ((strict_of_not_loosen la hl).2.symm.trans (strict_of_not_loosen lb hl').2)
+      · exact hids x hx y hy ⟨hxi.trans hyi.symm, hxs.trans hys.symm⟩
+    · -- quoted (ICMP, protocol 1) vs direct (TCP, protocol 6)
+      obtain ⟨v, q, sp, dp, sq, hv, _, _, _, h1, _⟩ := tcpQuoted_inv hA
+      obtain ⟨v', sp', dp', hv', _, h6, _⟩ := tcpDirect_inv hB
+      rw [hv] at hv'; cases hv'
+      rw [h1] at h6; cases h6
+    · obtain ⟨v, q, sp, dp, sq, hv, _, _, _, h1, _⟩ := tcpQuoted_inv hB
+      obtain ⟨v', sp', dp', hv', _, h6, _⟩ := tcpDirect_inv hA
+      rw [hv] at hv'; cases hv'
+      rw [h1] at h6; cases h6
+    · -- both direct
+      obtain ⟨v, sp, dp, hv, hp, _, hsrc, hdst, hsp, hdp⟩ := tcpDirect_inv hA
+      obtain ⟨v', sp', dp', hv', hp', _, hsrc', hdst', hsp', hdp'⟩ := tcpDirect_inv hB
+      rw [hv] at hv'; cases hv'
+      rw [hp] at hp'
+      obtain ⟨rfl, rfl⟩ := some_pair_inj hp'
+      rcases hd with (hd | hd) | ⟨hd | hd, _⟩
+      · exact hd (hsrc.symm.trans hsrc')
+      · exact hd (hsp.symm.trans hsp')
+      · exact hd (hdst.symm.trans hdst')
+      · exact hd (hdp.symm.trans hdp')
+
+theorem isolation_sack {A B : SackCfg} {sA sB : List Sent} {t t' : Nat} {a a' : Bytes} {d d' : Bool} {p : Bytes}
+    (hd : FlowsDistinctSack A B) (hA : genuineSack A sA t a d p = true) :
+    genuineSack B sB t' a' d' p = false := by
+  cases hB : genuineSack B sB t' a' d' p with
+  | false => rfl
+  | true =>
+    exfalso
+    unfold genuineSack at hA hB
+    simp only [Bool.or_eq_true, Bool.and_eq_true] at hA hB
+    rcases hA with hA | ⟨_, hA⟩ <;> rcases hB with hB | ⟨_, hB⟩
+    · obtain ⟨v, q, sp, dp, sq, hv, hq, hp, hs, _, hqd, hdp, hl, hrel, hmin, hmax⟩ := sackQuoted_inv hA
+      obtain ⟨v', q', sp', dp', sq', hv', hq', hp', hs', _, hqd', hdp', hl', hrel', hmin', hmax'⟩ := sackQuoted_inv hB
+      rw [hv] at hv'; cases hv'
+      rw [hq] at hq'; cases hq'
+      rw [hp] at hp'
+      obtain ⟨rfl, rfl⟩ := some_pair_inj hp'
+      rw [hs] at hs'; cases hs'
+      rcases hd with (hd | hd) | ⟨hld, ⟨la, lb⟩ | hw⟩
+      · exact hd (hqd.symm.trans hqd')
+      · exact hd (hdp.symm.trans hdp')
+      · rcases hld with hd | hd
+        · exact hd ((strict_of_not_loosen la hl).1.symm.trans (strict_of_not_loosen lb hl').1)
+        · exact hd ((strict_of_not_loosen la hl).2.symm.trans (strict_of_not_loosen lb hl').2)
+      · have hlt := u32_lt hs
+        refine hw t t' hmin hmax hmin' hmax' ?_
+        omega
+    · obtain ⟨v, q, sp, dp, sq, hv, _, _, _, h1, _⟩ := sackQuoted_inv hA
+      obtain ⟨v', sp', dp', hv', _, h6, _⟩ := sackDirect_inv hB
+      rw [hv] at hv'; cases hv'
+      rw [h1] at h6; cases h6
+    · obtain ⟨v, q, sp, dp, sq, hv, _, _, _, h1, _⟩ := sackQuoted_inv hB
+      obtain ⟨v', sp', dp', hv', _, h6, _⟩ := sackDirect_inv hA
+      rw [hv] at hv'; cases hv'
+      rw [h1] at h6; cases h6
+    · obtain ⟨v, sp, dp, hv, hp, _, hsrc, hdst, hsp, hdp⟩ := sackDirect_inv hA
+      obtain ⟨v', sp', dp', hv', hp', _, hsrc', hdst', hsp', hdp'⟩ := sackDirect_inv hB
+      rw [hv] at hv'; cases hv'
+      rw [hp] at hp'
+      obtain ⟨rfl, rfl⟩ := some_pair_inj hp'
+      rcases hd with (hd | hd) | ⟨hd | hd, _⟩
+      · exact hd (hsrc.symm.trans hsrc')
+      · exact hd (hsp.symm.trans hsp')
+      · exact hd (hdst.symm.trans hdst')
+      · exact hd (hdp.symm.trans hdp')
+
+/-- cross-protocol: a packet genuine for a TCP-SYN run is not genuine for a UDP run -/
+theorem isolation_udp4_tcp {U : UdpCfg} {C : TcpCfg} {sU sC : List Sent} {t t' : Nat} {a a' : Bytes} {d d' : Bool} {p : Bytes}
+    (hd : FlowsDistinctUdpTcp U C sU sC) (hC : genuineTcp C sC t a d p = true) :
+    genuineUdp4 U sU t' a' d' p = false := by
+  cases hU : genuineUdp4 U sU t' a' d' p with
+  | false => rfl
+  | true =>
+    exfalso
+    obtain ⟨v', q', sp', dp', hv', hq', hp', hqd', hdp', hl', y, hy, _, hyi⟩ := udp4_inv hU
+    unfold genuineTcp at hC
+    cases d <;> simp only [Bool.false_eq_true, if_false, if_true] at hC
+    · obtain ⟨v, q, sp, dp, sq, hv, hq, hp, hs, _, hqd, hdp, hl, x, hx, _, hxi, hxs⟩ := tcpQuoted_inv hC
+      rw [hv] at hv'; cases hv'
+      rw [hq] at hq'; cases hq'
+      rw [hp] at hp'
+      obtain ⟨rfl, rfl⟩ := some_pair_inj hp'
+      rcases hd with (hd | hd) | ⟨la, lb, hd | hd⟩ | hids
+      · exact hd (hqd'.symm.trans hqd)
+      · exact hd (hdp'.symm.trans hdp)
+      · exact hd ((strict_of_not_loosen la hl').1.symm.trans (strict_of_not_loosen lb hl).1)
+      · exact hd ((strict_of_not_loosen la hl').2.symm.trans (strict_of_not_loosen lb hl).2)
+      · exact hids y hy x hx (hyi.trans hxi.symm)
+    · -- a direct TCP reply has outer protocol 6, a UDP-genuine packet is ICMP
+      obtain ⟨v, sp, dp, hv, _, h6, _⟩ := tcpDirect_inv hC
+      rw [hv] at hv'; cases hv'
+      unfold genuineUdp4 at hU
+      simp only [hv, hq', hp'] at hU
+      simp only [Bool.and_eq_true, decide_eq_true_eq, and_assoc] at hU
+      rw [h6] at hU
+      exact absurd hU.2.1 (by decide)
+
+
+
+/-! # Part 3: from genuineness to the matchers (via `*_sound`) and to the engines -/
+section Part3
+open TRV.Wire TRV.Engine
+
+theorem ne_nil_of_u8 {b : Bytes} {v : Nat} (h : u8 b 0 = some v) : b ≠ [] := by
+  intro hb; subst hb; simp [u8] at h
+
+theorem ne_nil_of_take {b : Bytes} {n : Nat} (h : b.take n ≠ []) : b ≠ [] := by
+  intro hb; subst hb; simp at h
+
+/-! ### a packet accepted by one run is not accepted by a concurrent run -/
+
+theorem not_both_icmp4 {sA sB : IcmpSt} {pkt : Bytes} {t : Nat} {a : Bytes} {d : Bool} {tm : Nat}
+    (hd : FlowsDistinctIcmp sA.cfg sB.cfg) (hv4 : ∃ b0, u8 pkt 0 = some b0 ∧ b0 / 16 = 4)
+    (hA : icmpRecv sA pkt = .accept t a d tm) (t' : Nat) (a' : Bytes) (d' : Bool) (tm' : Nat) :
+    icmpRecv sB pkt ≠ .accept t' a' d' tm' := by
+  intro hB
+  have gA := (icmp4_sound hA hv4).1
+  have gB := (icmp4_sound hB hv4).1
+  rw [isolation_icmp4 hd gA] at gB; cases gB
+
+theorem not_both_udp4 {sA sB : UdpSt} {pkt : Bytes} {t : Nat} {a : Bytes} {d : Bool} {tm : Nat}
+    (hd : FlowsDistinctUdp sA.cfg sB.cfg) (hiA : UdpInv sA) (hiB : UdpInv sB)
+    (h4A : sA.cfg.target.length = 4) (h4B : sB.cfg.target.length = 4)
+    (hv4 : ∃ b0, u8 (pkt.take bufSize) 0 = some b0 ∧ b0 / 16 = 4)
+    (hA : udpRecv sA pkt = .accept t a d tm) (t' : Nat) (a' : Bytes) (d' : Bool) (tm' : Nat) :
+    udpRecv sB pkt ≠ .accept t' a' d' tm' := by
+  intro hB
+  have gA := (udp4_sound hiA h4A hA hv4).1
+  have gB := (udp4_sound hiB h4B hB hv4).1
+  rw [isolation_udp4 hd gA] at gB; cases gB
+
+theorem not_both_tcp {sA sB : TcpSt} {pkt : Bytes} {t : Nat} {a : Bytes} {d : Bool} {tm : Nat}
+    (hd : FlowsDistinctTcp sA.cfg sB.cfg sA.sent sB.sent)
+    (hv4 : ∃ b0, u8 (pkt.take bufSize) 0 = some b0 ∧ b0 / 16 = 4)
+    (hA : tcpRecv sA pkt = .accept t a d tm) (t' : Nat) (a' : Bytes) (d' : Bool) (tm' : Nat) :
+    tcpRecv sB pkt ≠ .accept t' a' d' tm' := by
+  intro hB
+  have gA := (tcp_sound hA hv4).1
+  have gB := (tcp_sound hB hv4).1
+  rw [isolation_tcp hd gA] at gB; cases gB
+
+theorem not_both_sack {sA sB : SackSt} {pkt : Bytes} {t : Nat} {a : Bytes} {d : Bool} {tm : Nat}
+    (hd : FlowsDistinctSack sA.cfg sB.cfg)
+    (hv4 : ∃ b0, u8 (pkt.take bufSize) 0 = some b0 ∧ b0 / 16 = 4)
+    (hA : sackRecv sA pkt = .accept t a d tm) (t' : Nat) (a' : Bytes) (d' : Bool) (tm' : Nat) :
+    sackRecv sB pkt ≠ .accept t' a' d' tm' := by
+  intro hB
+  have gA := (sack_sound hA hv4).1
+  have gB := (sack_sound hB hv4).1
+  rw [isolation_sack hd gA] at gB; cases gB
+
+theorem not_both_udp4_tcp {sU : UdpSt} {sC : TcpSt} {pkt : Bytes} {t : Nat} {a : Bytes} {d : Bool} {tm : Nat}
+    (hd : FlowsDistinctUdpTcp sU.cfg sC.cfg sU.sent sC.sent) (hiU : UdpInv sU) (h4U : sU.cfg.target.length = 4)
+    (hv4 : ∃ b0, u8 (pkt.take bufSize) 0 = some b0 ∧ b0 / 16 = 4)
+    (hC : tcpRecv sC pkt = .accept t a d tm) (t' : Nat) (a' : Bytes) (d' : Bool) (tm' : Nat) :
+    udpRecv sU pkt ≠ .accept t' a' d' tm' := by
+  intro hU
+  have gC := (tcp_sound hC hv4).1
+  have gU := (udp4_sound hiU h4U hU hv4).1
+  rw [isolation_udp4_tcp hd gC] at gU; cases gU
+
+/-! ### … it is classified `retry` there (not fatal, not NotSupported) -/
+
+theorem foreign_retry_icmp4 {sA sB : IcmpSt} {pkt : Bytes} {t : Nat} {a : Bytes} {d : Bool} {tm : Nat}
+    (hd : FlowsDistinctIcmp sA.cfg sB.cfg) (hv4 : ∃ b0, u8 pkt 0 = some b0 ∧ b0 / 16 = 4)
+    (hB : icmpRecv sB pkt = .accept t a d tm) : icmpRecv sA pkt = .retry := by
+  obtain ⟨b0, hb0, _⟩ := hv4
+  have hne := ne_nil_of_u8 hb0
+  have hc := icmpRecv_class sA pkt hne
+  cases hA : icmpRecv sA pkt with
+  | retry => rfl
+  | fatal => exact absurd hA hc.1
+  | notSupported => exact absurd hA hc.2
+  | accept t' a' d' tm' => exact absurd hB (not_both_icmp4 hd ⟨b0, hb0, ‹_›⟩ hA t a d tm)
+
+
+theorem foreign_retry_udp4 {sA sB : UdpSt} {pkt : Bytes} {t : Nat} {a : Bytes} {d : Bool} {tm : Nat}
+    (hd : FlowsDistinctUdp sA.cfg sB.cfg) (hiA : UdpInv sA) (hiB : UdpInv sB)
+    (h4A : sA.cfg.target.length = 4) (h4B : sB.cfg.target.length = 4)
+    (hv4 : ∃ b0, u8 (pkt.take bufSize) 0 = some b0 ∧ b0 / 16 = 4)
+    (hB : udpRecv sB pkt = .accept t a d tm) : udpRecv sA pkt = .retry := by
+  have hne : pkt ≠ [] := by
+    obtain ⟨b0, hb0, _⟩ := hv4
+    exact ne_nil_of_take (ne_nil_of_u8 hb0)
+  have hc := udpRecv_class sA pkt hne
+  cases hA : udpRecv sA pkt with
+  | retry => rfl
+  | fatal => exact absurd hA hc.1
+  | notSupported => exact absurd hA hc.2
+  | accept t' a' d' tm' => exact absurd hB (not_both_udp4 hd hiA hiB h4A h4B hv4 hA t a d tm)
+
+/-- TCP SYN: once run A has sent a probe (the serial engine always sends before it receives) -/
+theorem foreign_retry_tcp {sA sB : TcpSt} {pkt : Bytes} {t : Nat} {a : Bytes} {d : Bool} {tm : Nat}
+    (hd : FlowsDistinctTcp sA.cfg sB.cfg sA.sent sB.sent) (hsent : sA.sent ≠ [])
+    (hv4 : ∃ b0, u8 (pkt.take bufSize) 0 = some b0 ∧ b0 / 16 = 4)
+    (hB : tcpRecv sB pkt = .accept t a d tm) : tcpRecv sA pkt = .retry := by
+  have hne : pkt ≠ [] := by
+    obtain ⟨b0, hb0, _⟩ := hv4
+    exact ne_nil_of_take (ne_nil_of_u8 hb0)
+  have hc := tcpRecv_class sA pkt hne
+  cases hA : tcpRecv sA pkt with
+  | retry => rfl
+  | fatal => exact absurd hA (hc.2 hsent)
+  | notSupported => exact absurd hA hc.1
+  | accept t' a' d' tm' => exact absurd hB (not_both_tcp hd hv4 hA t a d tm)
+
+/-- a SACK run that accepts a TCP segment has matched the segment's addresses and ports -/
+theorem sack_accept_tuple {s : SackSt} {pkt : Bytes} {l3 : L3} {tt : TCP} {t : Nat} {a : Bytes} {d : Bool} {tm : Nat}
+    (hp : parse (pkt.take bufSize) = some (l3, .tcp tt)) (h : sackRecv s pkt = .accept t a d tm) :
+    l3.src = s.cfg.target ∧ l3.dst = s.cfg.localA ∧ s.cfg.tport = tt.sport ∧ s.cfg.lport = tt.dport := by
+  unfold sackRecv at h
+  split at h; · simp at h
+  simp only [hp] at h
+  split at h; · simp at h
+  rename_i h1
+  split at h; · simp at h
+  rename_i h2
+  simp only [not_or, Classical.not_not] at h1 h2
+  exact ⟨h1.1, h1.2, h2.1, h2.2⟩
+
+theorem foreign_retry_sack {sA sB : SackSt} {pkt : Bytes} {t : Nat} {a : Bytes} {d : Bool} {tm : Nat}
+    (hd : FlowsDistinctSack sA.cfg sB.cfg)
+    (hv4 : ∃ b0, u8 (pkt.take bufSize) 0 = some b0 ∧ b0 / 16 = 4)
+    (hB : sackRecv sB pkt = .accept t a d tm) : sackRecv sA pkt = .retry := by
+  have hne : pkt ≠ [] := by
+    obtain ⟨b0, hb0, _⟩ := hv4
+    exact ne_nil_of_take (ne_nil_of_u8 hb0)
+  cases hA : sackRecv sA pkt with
+  | retry => rfl
+  | fatal => exact absurd hA (sackRecv_class sA pkt hne)
+  | notSupported =>
+    exfalso
+    obtain ⟨l3, tt, hp, h1, h2, h3, h4, _⟩ := (sackRecv_notSupported_iff sA pkt hne).mp hA
+    obtain ⟨g1, g2, g3, g4⟩ := sack_accept_tuple hp hB
+    rcases hd with (hd | hd) | ⟨hd | hd, _⟩
+    · exact hd (h1.symm.trans g1)
+    · exact hd (h3.symm.trans g3.symm)
+    · exact hd (h2.symm.trans g2)
+    · exact hd (h4.symm.trans g4.symm)
+  | accept t' a' d' tm' => exact absurd hB (not_both_sack hd hv4 hA t a d tm)
+
+/-! ### engine: `retry` entries do not influence the result -/
+
+theorem recvLoop_dropRetry (min max : Nat) : ∀ (outs : List ROut) (s : Slots),
+    recvLoop min max s (dropRetry outs) = recvLoop min max s outs := by
+  intro outs
+  induction outs with
+  | nil => intro s; rfl
+  | cons o rest ih =>
+    intro s
+    cases o with
+    | retry => simp only [dropRetry, recvLoop]; exact ih s
+    | fatal => simp [dropRetry, recvLoop]
+    | nilProbe => simp [dropRetry, recvLoop]
+    | accept p =>
+      simp only [dropRetry, recvLoop]
+      split
+      · exact ih _
+      · rfl
+
+theorem parallelRun_dropRetry (min max : Nat) (sp : Bool) (outs : List ROut) (se ec : Bool) :
+    parallelRun min max sp (dropRetry outs) se ec = parallelRun min max sp outs se ec := by
+  unfold parallelRun
+  rw [recvLoop_dropRetry]
+
+theorem serialWindow_dropRetry (min max : Nat) : ∀ (w : List ROut),
+    serialWindow min max (dropRetry w) = serialWindow min max w := by
+  intro w
+  induction w with
+  | nil => rfl
+  | cons o rest ih =>
+    cases o with
+    | retry => simp only [dropRetry, serialWindow]; exact ih
+    | fatal => simp [dropRetry, serialWindow]
+    | nilProbe => simp [dropRetry, serialWindow]
+    | accept p => simp [dropRetry, serialWindow]
+
+theorem serialLoop_dropRetry (min max : Nat) : ∀ (ws : List (List ROut)) (s : Slots),
+    serialLoop min max s (ws.map dropRetry) = serialLoop min max s ws := by
+  intro ws
+  induction ws with
+  | nil => intro s; rfl
+  | cons w rest ih =>
+    intro s
+    simp only [List.map_cons, serialLoop, serialWindow_dropRetry]
+    split
+    · rfl
+    · exact ih s
+    · split
+      · rfl
+      · exact ih _
+
+theorem accepted_dropRetry : ∀ (outs : List ROut), accepted (dropRetry outs) = accepted outs := by
+  intro outs
+  induction outs with
+  | nil => rfl
+  | cons o rest ih => cases o <;> simp [dropRetry, accepted, ih]
+
+
+end Part3
 
 end TRV.Proofs
